@@ -1,1 +1,785 @@
-"""placeholder"""
+"""The explainable-operator layer: R-OPREC, R-OPPAR, R-COMM, R-PURE, R-FILL, R-SHIFT, R-RAW2, R-SUMMARY (DESIGN §5.C)."""
+import ast
+
+from . import rule
+from ..frontend import AnalysisError, norm
+from ..report import Finding, RuleResult
+from ..interp import E_METHODS, CTOR_PARAMS
+
+EO = "abstract_modeling_classes/explainable_objects.py"
+EB = "abstract_modeling_classes/explainable_object_base_class.py"
+CLASSES = ("EmptyExplainableObject", "ExplainableQuantity", "ExplainableHourlyQuantities")
+KIND_OF_CLASS = {"EmptyExplainableObject": "EMPTY", "ExplainableQuantity": "EQ", "ExplainableHourlyQuantities": "EHQ"}
+CLASS_OF_KIND = {v: k for k, v in KIND_OF_CLASS.items()}
+KINDS = ("ZERO", "EMPTY", "EQ", "EHQ")
+ISINSTANCE = {"EmptyExplainableObject": {"EMPTY"}, "ExplainableQuantity": {"EQ"},
+              "ExplainableHourlyQuantities": {"EHQ"}, "ExplainableObject": {"EMPTY", "EQ", "EHQ"}}
+BIN = {"__add__": "+", "__radd__": "+", "__sub__": "-", "__rsub__": "-", "__mul__": "*", "__rmul__": "*",
+       "__truediv__": "/", "__rtruediv__": "/"}
+AST_OP = {ast.Add: "+", ast.Sub: "-", ast.Mult: "*", ast.Div: "/"}
+METHOD_OP = {"add": "+", "sub": "-", "mul": "*", "div": "/", "truediv": "/"}
+
+
+def _methods(pm, cls):
+    return {f.name: f for f in pm.own_methods(cls)}
+
+
+def _find(pm, cls, name):
+    owner, fn = pm.find_method(cls, name)
+    return owner, fn
+
+
+# ---------------------------------------------------------------------------------------------- dispatch evaluation
+def _test_kinds(test, opname):
+    """set of operand kinds for which `test` is true, or None if the test is not understood"""
+    if isinstance(test, ast.Call) and isinstance(test.func, ast.Name) and test.func.id == "isinstance" \
+            and isinstance(test.args[0], ast.Name) and test.args[0].id == opname:
+        c = test.args[1]
+        if isinstance(c, ast.Name) and c.id in ISINSTANCE:
+            return set(ISINSTANCE[c.id])
+        if isinstance(c, ast.Attribute) and c.attr == "Number":
+            return {"ZERO"}
+        if isinstance(c, ast.Tuple):
+            out = set()
+            for x in c.elts:
+                if isinstance(x, ast.Name) and x.id in ISINSTANCE:
+                    out |= ISINSTANCE[x.id]
+                else:
+                    return None
+            return out
+        return None
+    if isinstance(test, ast.BoolOp):
+        parts = [_test_kinds(v, opname) for v in test.values]
+        if any(p is None for p in parts):
+            return None
+        out = parts[0]
+        for p in parts[1:]:
+            out = (out | p) if isinstance(test.op, ast.Or) else (out & p)
+        return out
+    if isinstance(test, ast.Compare) and isinstance(test.left, ast.Name) and test.left.id == opname \
+            and len(test.ops) == 1 and isinstance(test.ops[0], ast.Eq) \
+            and isinstance(test.comparators[0], ast.Constant) and test.comparators[0].value == 0:
+        return {"ZERO"}       # `other == 0`: true for the number 0 (EMPTY == 0 is handled by an earlier branch)
+    return None
+
+
+class Outcome:
+    def __init__(self, tag, cls=None, fn=None, node=None, kind=None, value=None, left=None, right=None, op=None,
+                 swapped=False, const=None):
+        self.tag, self.cls, self.fn, self.node, self.kind = tag, cls, fn, node, kind
+        self.value, self.left, self.right, self.op, self.swapped, self.const = value, left, right, op, swapped, const
+
+
+def _ctor_outcome(cls, fn, call, swapped, localdefs):
+    names = CTOR_PARAMS[call.func.id]
+    b = {}
+    for i, a in enumerate(call.args):
+        if i < len(names):
+            b[names[i]] = a
+    for k in call.keywords:
+        if k.arg:
+            b[k.arg] = k.value
+    val = b.get("value")
+    if isinstance(val, ast.Name) and val.id in localdefs:
+        val = localdefs[val.id]
+    op = b.get("operator")
+    opv = None
+    if isinstance(op, ast.Constant):
+        opv = op.value
+    elif isinstance(op, ast.JoinedStr):
+        opv = "".join(v.value if isinstance(v, ast.Constant) else "{}" for v in op.values)
+    return Outcome("ctor", cls, fn, call, KIND_OF_CLASS.get(call.func.id, call.func.id), val, b.get("left_parent"),
+                   b.get("right_parent"), opv, swapped)
+
+
+def _local_defs(fn):
+    out = {}
+    for n in ast.walk(fn):
+        if isinstance(n, ast.Assign) and len(n.targets) == 1 and isinstance(n.targets[0], ast.Name):
+            out[n.targets[0].id] = n.value
+    return out
+
+
+def evaluate(pm, cls, mname, kind, depth=0, swapped=False):
+    """Outcome of `cls.mname(self, other)` when `other` has operand kind `kind` (follows delegations)."""
+    if depth > 6:
+        raise AnalysisError(f"delegation loop in {cls}.{mname}")
+    owner, fn = pm.find_method(cls, mname)
+    if fn is None or owner not in CLASSES:
+        return Outcome("missing", cls, mname)
+    params = [a.arg for a in fn.args.args]
+    opname = params[1] if len(params) > 1 else None
+    localdefs = _local_defs(fn)
+
+    def run(body):
+        for s in body:
+            if isinstance(s, ast.If):
+                ks = _test_kinds(s.test, opname)
+                if ks is None:
+                    raise AnalysisError(f"{cls}.{mname}: dispatch test not understood: {norm(s.test)[:80]}")
+                r = run(s.body) if kind in ks else run(s.orelse)
+                if r is not None:
+                    return r
+            elif isinstance(s, ast.Return):
+                v = s.value
+                if isinstance(v, ast.Call) and isinstance(v.func, ast.Name) and v.func.id in CTOR_PARAMS:
+                    o = _ctor_outcome(cls, fn, v, swapped, localdefs)
+                    o.okind = kind
+                    return o
+                if isinstance(v, ast.Call) and isinstance(v.func, ast.Attribute) and isinstance(v.func.value, ast.Name) \
+                        and v.func.attr.startswith("__") and len(v.args) == 1 and isinstance(v.args[0], ast.Name):
+                    recv, arg = v.func.value.id, v.args[0].id
+                    if recv == opname and arg == "self":
+                        if kind == "ZERO":
+                            raise AnalysisError(f"{cls}.{mname}: delegates to a number")
+                        return evaluate(pm, CLASS_OF_KIND[kind], v.func.attr, KIND_OF_CLASS[cls], depth + 1, not swapped)
+                    if recv == "self" and arg == opname:
+                        return evaluate(pm, cls, v.func.attr, kind, depth + 1, swapped)
+                if isinstance(v, ast.Constant):
+                    return Outcome("const", cls, fn, s, const=v.value)
+                if isinstance(v, ast.Name) and v.id == "self":
+                    return Outcome("self", cls, fn, s, swapped=swapped)
+                raise AnalysisError(f"{cls}.{mname}: return shape not understood: {norm(s)[:80]}")
+            elif isinstance(s, ast.Raise):
+                return Outcome("raise", cls, fn, s)
+            elif isinstance(s, (ast.Assign, ast.Expr)):
+                continue
+            else:
+                raise AnalysisError(f"{cls}.{mname}: statement {type(s).__name__} not understood")
+        return None
+    r = run(fn.body)
+    if r is None:
+        return Outcome("const", cls, fn, fn, const=None)
+    return r
+
+
+def _roles(out, a_is_self):
+    """map 'self'/'other' (of the method that finally ran) to operand tokens A (first written operand) / B"""
+    params = [a.arg for a in out.fn.args.args] if out.fn is not None and not isinstance(out.fn, str) else ["self", "other"]
+    me, ot = params[0], (params[1] if len(params) > 1 else "other")
+    if out.swapped:
+        return {me: "B", ot: "A"}
+    return {me: "A", ot: "B"}
+
+
+def _canon(expr, roles):
+    """canonical text of a value / parent expression with operands renamed and commutative operations sorted"""
+    if expr is None:
+        return None
+
+    def c(e):
+        if isinstance(e, ast.Name):
+            return roles.get(e.id, e.id)
+        if isinstance(e, ast.Attribute):
+            return f"{c(e.value)}.{e.attr}"
+        if isinstance(e, ast.BinOp) and type(e.op) in AST_OP:
+            l, r = c(e.left), c(e.right)
+            sym = AST_OP[type(e.op)]
+            if sym in "+*":
+                l, r = sorted([l, r])
+            return f"({l} {sym} {r})"
+        if isinstance(e, ast.Call) and isinstance(e.func, ast.Attribute) and e.func.attr in METHOD_OP and e.args:
+            l, r = c(e.func.value), c(e.args[0])
+            sym = METHOD_OP[e.func.attr]
+            if sym in "+*":
+                l, r = sorted([l, r])
+            return f"({l} {sym} {r})"
+        if isinstance(e, ast.Constant):
+            return repr(e.value)
+        return norm(e)
+    return c(expr)
+
+
+def _sig(out):
+    if out.tag == "ctor":
+        roles = _roles(out, True)
+        return ("ctor", out.kind, _canon(out.value, roles))
+    if out.tag == "self":
+        return ("operand", "B" if out.swapped else "A")
+    if out.tag == "const":
+        return ("const", out.const)
+    return (out.tag,)
+
+
+def _top_op(value):
+    if isinstance(value, ast.BinOp) and type(value.op) in AST_OP:
+        return AST_OP[type(value.op)], value.left, value.right
+    if isinstance(value, ast.Call) and isinstance(value.func, ast.Attribute) and value.func.attr in METHOD_OP \
+            and value.args:
+        return METHOD_OP[value.func.attr], value.func.value, value.args[0]
+    return None, None, None
+
+
+def _root(e):
+    while isinstance(e, (ast.Attribute, ast.Subscript, ast.Call)):
+        e = e.func if isinstance(e, ast.Call) else e.value
+    return e.id if isinstance(e, ast.Name) else None
+
+
+# ---------------------------------------------------------------------------------------------- rules
+@rule("R-OPREC")
+def r_oprec(E):
+    pm = E.pm
+    res = RuleResult("R-OPREC", "in every binary-operator outcome that constructs a result, the recorded operator is "
+                                "the computed one and (left_parent, right_parent) are the operands in the order they "
+                                "occur in the value expression")
+    rel, _ = pm.module_tree(EO)
+    seen = set()
+    for cls in CLASSES:
+        for m, sym in BIN.items():
+            for k in KINDS:
+                try:
+                    out = evaluate(pm, cls, m, k)
+                except AnalysisError as e:
+                    res.undecided.append(str(e))
+                    continue
+                if out.tag != "ctor" or out.op is None:
+                    continue
+                ident = (out.cls, out.fn.name, out.node.lineno)
+                if ident in seen:
+                    continue
+                seen.add(ident)
+                res.instances += 1
+                where = f"{out.cls}.{out.fn.name}"
+                k = getattr(out, "okind", k)     # operand kind seen by the method that finally ran
+                key = f"{where} [{k}] :: {norm(out.node)[:100]}"
+                osym = BIN.get(out.fn.name)
+                if out.op not in ("+", "-", "*", "/"):
+                    if out.op != "+ 0":
+                        res.findings.append(Finding("R-OPREC", key, f"{where} records operator {out.op!r}, not an "
+                                                    f"arithmetic symbol", rel, out.node.lineno, where))
+                    continue
+                l, r = (out.left.id if isinstance(out.left, ast.Name) else None), \
+                       (out.right.id if isinstance(out.right, ast.Name) else None)
+                if out.value is None:
+                    # an empty result: nothing is computed; the record must name the operands in written order
+                    params = [a.arg for a in out.fn.args.args]
+                    want = (params[1], params[0]) if out.fn.name.startswith("__r") else (params[0], params[1])
+                    if out.op != osym or (l, r) != want:
+                        res.findings.append(Finding(
+                            "R-OPREC", key, f"{where} records ({l} {out.op} {r}) for an empty result of "
+                            f"`{want[0]} {osym} {want[1]}`", rel, out.node.lineno, where))
+                    continue
+                vsym, vl, vr = _top_op(out.value)
+                if vsym is None:
+                    # value is one operand's value: only right when the other operand is neutral (EMPTY with + or -)
+                    if not (k == "EMPTY" and out.op in "+-" and osym == out.op):
+                        res.findings.append(Finding(
+                            "R-OPREC", key, f"{where} records operator {out.op!r} but the value is not computed by "
+                            f"that operation ({norm(out.value)[:60]})", rel, out.node.lineno, where))
+                    elif _root(out.value) != l:
+                        res.findings.append(Finding(
+                            "R-OPREC", key, f"{where}: value taken from {_root(out.value)} but left_parent is {l}",
+                            rel, out.node.lineno, where))
+                    continue
+                if vsym != out.op:
+                    res.findings.append(Finding(
+                        "R-OPREC", key, f"{where} computes {norm(out.value)[:60]} ({vsym}) but records operator "
+                        f"{out.op!r}: explain() shows a formula that does not reproduce the value",
+                        rel, out.node.lineno, where))
+                if vsym != osym:
+                    res.findings.append(Finding(
+                        "R-OPREC", key, f"{where} implements {osym!r} but computes with {vsym!r}", rel,
+                        out.node.lineno, where))
+                if (_root(vl), _root(vr)) != (l, r):
+                    res.findings.append(Finding(
+                        "R-OPREC", key, f"{where} computes {norm(out.value)[:60]} but records parents ({l}, {r}): "
+                        f"operand order of the explanation differs from the computation", rel, out.node.lineno, where))
+                elif len(res.samples) < 5:
+                    res.samples.append({"method": where, "operand_kind": k, "value": norm(out.value)[:60],
+                                        "operator": out.op, "parents": [l, r], "verdict": "agree"})
+    res.floor = 20
+    return res
+
+
+def _flow_names(fn):
+    """local name -> set of parameter names it (transitively) derives from (flow-insensitive)"""
+    params = {a.arg for a in fn.args.args}
+    dep = {p: {p} for p in params}
+    changed = True
+    while changed:
+        changed = False
+        for n in ast.walk(fn):
+            if isinstance(n, (ast.Assign, ast.AugAssign)):
+                tgts = n.targets if isinstance(n, ast.Assign) else [n.target]
+                src = set()
+                for x in ast.walk(n.value):
+                    if isinstance(x, ast.Name) and x.id in dep:
+                        src |= dep[x.id]
+                for t in tgts:
+                    for x in ast.walk(t):
+                        if isinstance(x, ast.Name):
+                            if not src <= dep.get(x.id, set()):
+                                dep[x.id] = dep.get(x.id, set()) | src
+                                changed = True
+    return dep, params
+
+
+def reaching_kinds(fn):
+    """{id(return node): operand kinds of the second parameter that reach it}; None when the dispatch is not a pure
+    isinstance chain (then every kind is assumed to reach every return)"""
+    params = [a.arg for a in fn.args.args]
+    if len(params) < 2:
+        return None
+    opname = params[1]
+    out = {}
+
+    def run(body, kinds):
+        for s in body:
+            if not kinds:
+                return set()
+            if isinstance(s, ast.If):
+                ks = _test_kinds(s.test, opname)
+                if ks is None:
+                    raise AnalysisError("dispatch")
+                a = run(s.body, kinds & ks)
+                b = run(s.orelse, kinds - ks)
+                kinds = a | b
+            elif isinstance(s, ast.Return):
+                out[id(s)] = out.get(id(s), set()) | kinds
+                return set()
+            elif isinstance(s, ast.Raise):
+                return set()
+        return kinds
+    try:
+        run(fn.body, set(KINDS))
+    except AnalysisError:
+        return None
+    return out
+
+
+E_PARAM_NAMES = {"other", "compared_object", "shift_duration", "local_timezone", "explainable_condition"}
+OPPAR_EXCEPTIONS = {
+    ("ExplainableObject", "__copy__"): "deliberately parentless twin: simulations use it to freeze untouched ancestors",
+    ("EmptyExplainableObject", "__deepcopy__"): "copies the recorded parents of the original instead of pointing at it",
+}
+
+
+@rule("R-OPPAR")
+def r_oppar(E):
+    pm = E.pm
+    res = RuleResult("R-OPPAR", "every method of the explainable classes that returns a new explainable whose value is "
+                                "computed from self (and an explainable argument) records self (and that argument) as "
+                                "parent, with an operator when the value is not literally self.value")
+    for cls in CLASSES + ("ExplainableObject",):
+        path = pm.path_of(cls)
+        for fn in pm.own_methods(cls):
+            if fn.name in ("__init__", "plot", "__str__", "__repr__", "to_json"):
+                continue
+            dep, params = _flow_names(fn)
+            rk = reaching_kinds(fn)
+            for n in ast.walk(fn):
+                if not (isinstance(n, ast.Return) and isinstance(n.value, ast.Call)):
+                    continue
+                call = n.value
+                fname = call.func.id if isinstance(call.func, ast.Name) else None
+                if fname not in CTOR_PARAMS and not (isinstance(call.func, ast.Attribute) and
+                                                     norm(call.func) == "self.__class__"):
+                    continue
+                names = CTOR_PARAMS.get(fname, CTOR_PARAMS["ExplainableObject"])
+                b = {}
+                for i, a in enumerate(call.args):
+                    if i < len(names):
+                        b[names[i]] = a
+                for k in call.keywords:
+                    if k.arg:
+                        b[k.arg] = k.value
+                res.instances += 1
+                where = f"{cls}.{fn.name}"
+                if (cls, fn.name) in OPPAR_EXCEPTIONS:
+                    res.notes.append(f"{where}: exempt — {OPPAR_EXCEPTIONS[(cls, fn.name)]}")
+                    continue
+                used = set()
+                val = b.get("value")
+                if val is not None:
+                    for x in ast.walk(val):
+                        if isinstance(x, ast.Name) and x.id in dep:
+                            used |= dep[x.id]
+                elif fname == "EmptyExplainableObject":
+                    # an empty result is "computed from" self and from every explainable argument that can reach here
+                    used = {"self"}
+                    for p in params:
+                        if p in E_PARAM_NAMES:
+                            kinds = rk.get(id(n), set(KINDS)) if rk is not None else set(KINDS)
+                            if kinds & {"EMPTY", "EQ", "EHQ"}:
+                                used.add(p)
+                used &= ({"self"} | E_PARAM_NAMES)
+                parents = set()
+                for pk in ("left_parent", "right_parent"):
+                    if pk in b:
+                        for x in ast.walk(b[pk]):
+                            if isinstance(x, ast.Name):
+                                parents |= dep.get(x.id, {x.id})
+                miss = used - parents
+                key = f"{where} :: {norm(call)[:110]}"
+                if miss:
+                    res.findings.append(Finding(
+                        "R-OPPAR", key, f"{where} returns a new {fname or 'explainable'} computed from "
+                        f"{sorted(used)} but records only {sorted(parents & (E_PARAM_NAMES | {'self'}))} as parents: "
+                        f"the dependency on {sorted(miss)} is lost for explain() and for recomputation",
+                        path, n.lineno, where))
+                    continue
+                opn = b.get("operator")
+                literal = val is not None and norm(val) in ("self.value", "copy(self.value)", "self.value.copy()")
+                if opn is None and not literal and val is not None and fname != "EmptyExplainableObject":
+                    res.findings.append(Finding(
+                        "R-OPPAR", key + " no-operator", f"{where} computes {norm(val)[:60]} but records no operator",
+                        path, n.lineno, where))
+                elif len(res.samples) < 5:
+                    res.samples.append({"method": where, "value_uses": sorted(used), "parents": sorted(
+                        parents & (E_PARAM_NAMES | {"self"})), "verdict": "recorded"})
+    res.floor = 45
+    return res
+
+
+@rule("R-COMM")
+def r_comm(E):
+    pm = E.pm
+    res = RuleResult("R-COMM", "for + and *, the outcome for operand kinds (K1, K2) equals the outcome for (K2, K1) up "
+                               "to swapping the operands of a commutative value expression (raise / result kind / "
+                               "value expression)")
+    rel, _ = pm.module_tree(EO)
+    for fwd, rev, sym in (("__add__", "__radd__", "+"), ("__mul__", "__rmul__", "*")):
+        for i, k1 in enumerate(KINDS):
+            for k2 in KINDS[i:]:
+                if k1 == "ZERO" and k2 == "ZERO":
+                    continue
+                res.instances += 1
+                try:
+                    if k1 == "ZERO":
+                        # 0 + x  -> x.__radd__(0)   |  x + 0 -> x.__add__(0)
+                        a = evaluate(pm, CLASS_OF_KIND[k2], rev, "ZERO", swapped=True)
+                        b = evaluate(pm, CLASS_OF_KIND[k2], fwd, "ZERO")
+                        sa, sb = _sig(a), _sig(b)
+                        # roles: in `a` the explainable operand is written second
+                        if a.tag == "ctor":
+                            sa = ("ctor", a.kind, _canon(a.value, {"self": "A", "other": "B"}))
+                        if a.tag == "self":
+                            sa = ("operand", "A")
+                    else:
+                        a = evaluate(pm, CLASS_OF_KIND[k1], fwd, k2)                 # A op B, A is self
+                        b = evaluate(pm, CLASS_OF_KIND[k2], fwd, k1, swapped=True)   # B op A, A is other
+                        sa, sb = _sig(a), _sig(b)
+                except AnalysisError as e:
+                    res.undecided.append(str(e))
+                    continue
+                key = f"{sym} ({k1}, {k2})"
+                if sa != sb:
+                    res.findings.append(Finding(
+                        "R-COMM", key, f"`{k1} {sym} {k2}` gives {sa} but `{k2} {sym} {k1}` gives {sb}: the operation "
+                        f"is not commutative at the level of dispatch", rel,
+                        getattr(a.node, "lineno", 0) if a.node is not None else 0,
+                        f"{a.cls}.{fwd}"))
+                elif len(res.samples) < 6:
+                    res.samples.append({"operation": key, "outcome": list(sa), "verdict": "symmetric"})
+    # identity laws at the level of dispatch: empty is neutral for +, absorbing for *
+    for x in ("EMPTY", "EQ", "EHQ"):
+        for sym, m in (("+", "__add__"), ("*", "__mul__")):
+            for (cls_kind, other_kind) in ((x, "EMPTY"), ("EMPTY", x)):
+                res.instances += 1
+                try:
+                    o = evaluate(pm, CLASS_OF_KIND[cls_kind], m, other_kind)
+                except AnalysisError as e:
+                    res.undecided.append(str(e))
+                    continue
+                key = f"{sym} identity ({cls_kind}, {other_kind})"
+                want = x if sym == "+" else "EMPTY"
+                got = None
+                if o.tag == "ctor":
+                    got = o.kind
+                elif o.tag == "self":
+                    # the operand returned is `self` of the method that finally ran
+                    got = KIND_OF_CLASS[o.cls]
+                elif o.tag == "const":
+                    got = f"const {o.const}"
+                else:
+                    got = o.tag
+                ok = got == want
+                if ok and o.tag == "ctor" and sym == "+" and want != "EMPTY":
+                    # the value must be the non-empty operand's value, unchanged
+                    roles = _roles(o, True)
+                    val = _canon(o.value, roles)
+                    ok = val in ("A.value", "B.value")
+                if not ok:
+                    res.findings.append(Finding(
+                        "R-COMM", key, f"`{cls_kind} {sym} {other_kind}` yields {got}"
+                        f"{' (' + norm(o.value)[:40] + ')' if o.tag == 'ctor' and o.value is not None else ''}; an empty "
+                        f"value must be {'neutral for addition' if sym == '+' else 'absorbing for multiplication'} "
+                        f"(expected a result of kind {want})", rel, getattr(o.node, "lineno", 0),
+                        f"{o.cls}.{m}"))
+    res.floor = 28
+    return res
+
+
+VALUE_STORE_ALLOWED = {("ExplainableQuantity", "to"), ("ExplainableHourlyQuantities", "to"),
+                       ("ExplainableQuantity", "ceil"), ("ExplainableHourlyQuantities", "round"),
+                       ("EmptyExplainableObject", "__init__"), ("ExplainableObject", "__init__")}
+
+
+def _stores_into_value(fn):
+    """assignment statements of fn that store into <param>.value or a subscript of it"""
+    params = {a.arg for a in fn.args.args}
+    out = []
+    for n in ast.walk(fn):
+        tgts = []
+        if isinstance(n, ast.Assign):
+            tgts = n.targets
+        elif isinstance(n, ast.AugAssign):
+            tgts = [n.target]
+        for t in tgts:
+            base = t
+            while isinstance(base, ast.Subscript):
+                base = base.value
+            if isinstance(base, ast.Attribute) and base.attr == "value" and isinstance(base.value, ast.Name) \
+                    and base.value.id in params:
+                out.append((n, base.value.id))
+    return out
+
+
+@rule("R-PURE")
+def r_pure(E):
+    pm = E.pm
+    res = RuleResult("R-PURE", "no operator, comparison or helper of the explainable classes stores into an operand's "
+                               "value, except the declared in-place methods (to: unit conversion; EQ.ceil, EHQ.round)")
+    inplace_derived = []
+    for cls in CLASSES + ("ExplainableObject",):
+        path = pm.path_of(cls)
+        for fn in pm.own_methods(cls):
+            res.instances += 1
+            st = _stores_into_value(fn)
+            if st:
+                inplace_derived.append(f"{cls}.{fn.name}")
+            if (cls, fn.name) in VALUE_STORE_ALLOWED:
+                continue
+            for n, who in st:
+                res.findings.append(Finding(
+                    "R-PURE", f"{cls}.{fn.name} :: {norm(n)[:100]}",
+                    f"{cls}.{fn.name} stores into {who}.value: the operation changes its operand", path, n.lineno,
+                    f"{cls}.{fn.name}"))
+            # in-place helpers called on an operand inside an operator
+            if fn.name.startswith("__") and fn.name not in ("__init__",):
+                for n in ast.walk(fn):
+                    if isinstance(n, ast.Call) and isinstance(n.func, ast.Attribute) and n.func.attr in ("ceil", "round") \
+                            and isinstance(n.func.value, ast.Name) and n.func.value.id in ("self", "other"):
+                        res.findings.append(Finding(
+                            "R-PURE", f"{cls}.{fn.name} :: {norm(n)[:100]}",
+                            f"{cls}.{fn.name} calls the in-place .{n.func.attr}() on an operand", path, n.lineno,
+                            f"{cls}.{fn.name}"))
+    res.breakdown = {"methods_that_store_into_self.value": sorted(inplace_derived)}
+    res.samples = [{"derived_in_place_methods": sorted(inplace_derived)}]
+    res.floor = 60
+    return res
+
+
+def _is_frame(e, frames):
+    """syntactic 'this expression is an hourly frame' (X.value of an explainable, shift/add/mul/copy of a frame)"""
+    if isinstance(e, ast.Name):
+        return e.id in frames
+    if isinstance(e, ast.Attribute) and e.attr == "value" and isinstance(e.value, ast.Name):
+        return True
+    if isinstance(e, ast.Call) and isinstance(e.func, ast.Attribute) and e.func.attr in (
+            "shift", "add", "mul", "copy", "cumsum"):
+        return _is_frame(e.func.value, frames)
+    if isinstance(e, ast.UnaryOp):
+        return _is_frame(e.operand, frames)
+    if isinstance(e, ast.BinOp) and isinstance(e.op, ast.Mult):
+        # frame * scalar stays a frame
+        return _is_frame(e.left, frames) or _is_frame(e.right, frames)
+    return False
+
+
+FILL_SCOPE = [(EO, "ExplainableHourlyQuantities.__add__"), (EO, "ExplainableHourlyQuantities.__mul__"),
+              ("core/usage/compute_nb_occurrences_in_parallel.py", "compute_nb_avg_hourly_occurrences")]
+
+
+@rule("R-FILL")
+def r_fill(E):
+    pm = E.pm
+    res = RuleResult("R-FILL", "every element-wise + or * between two hourly frames is the method form with fill_value "
+                               "(missing hours count as zero); a bare df1 + df2 / df1 * df2 yields NaN outside the "
+                               "common index")
+    for suffix, q in FILL_SCOPE:
+        rel, fn = pm.find_function(suffix, q)
+        frames = set()
+        for _ in range(3):
+            for n in ast.walk(fn):
+                if isinstance(n, ast.Assign) and len(n.targets) == 1 and isinstance(n.targets[0], ast.Name) \
+                        and _is_frame(n.value, frames):
+                    frames.add(n.targets[0].id)
+        for n in ast.walk(fn):
+            if isinstance(n, ast.Call) and isinstance(n.func, ast.Attribute) and n.func.attr in ("add", "mul") \
+                    and _is_frame(n.func.value, frames):
+                res.instances += 1
+                if not any(k.arg == "fill_value" for k in n.keywords):
+                    res.findings.append(Finding(
+                        "R-FILL", f"{q} :: {norm(n)[:100]}",
+                        f"{q}: .{n.func.attr}() between hourly frames without fill_value: hours present on one side "
+                        f"only become NaN", rel, n.lineno, q))
+                elif len(res.samples) < 5:
+                    res.samples.append({"function": q, "site": norm(n)[:80], "verdict": "fill_value given"})
+            if isinstance(n, ast.BinOp) and isinstance(n.op, (ast.Add, ast.Mult)):
+                lf, rf = _is_frame(n.left, frames), _is_frame(n.right, frames)
+                both_value = isinstance(n.op, ast.Mult) and not (
+                    isinstance(n.left, ast.Attribute) and isinstance(n.right, ast.Attribute))
+                if lf and rf and not (isinstance(n.op, ast.Mult) and both_value and not (
+                        _pure_frame(n.left, frames) and _pure_frame(n.right, frames))):
+                    res.instances += 1
+                    res.findings.append(Finding(
+                        "R-FILL", f"{q} :: {norm(n)[:100]}",
+                        f"{q}: bare `{norm(n)[:60]}` between two hourly frames aligns on the index and yields NaN "
+                        f"where only one side has a value", rel, n.lineno, q))
+    res.floor = 4
+    return res
+
+
+def _pure_frame(e, frames):
+    if isinstance(e, ast.Name):
+        return e.id in frames
+    if isinstance(e, ast.Attribute) and e.attr == "value":
+        return True
+    if isinstance(e, ast.Call) and isinstance(e.func, ast.Attribute) and e.func.attr in ("shift", "add", "mul", "copy"):
+        return _pure_frame(e.func.value, frames)
+    return False
+
+
+@rule("R-SHIFT")
+def r_shift(E):
+    pm = E.pm
+    res = RuleResult("R-SHIFT", "every .shift( on an hourly frame passes freq= (index shift: values keep their place on a "
+                                "longer time line); a positional shift drops what leaves the frame")
+    for mod, (rel, tree, src) in sorted(pm.modules.items()):
+        for n in ast.walk(tree):
+            if isinstance(n, ast.Call) and isinstance(n.func, ast.Attribute) and n.func.attr == "shift":
+                res.instances += 1
+                fn = n
+                while fn is not None and not isinstance(fn, ast.FunctionDef):
+                    fn = getattr(fn, "_parent", None)
+                q = fn.name if fn is not None else "<module>"
+                if not any(k.arg == "freq" for k in n.keywords):
+                    res.findings.append(Finding(
+                        "R-SHIFT", f"{rel}:{q} :: {norm(n)[:100]}",
+                        f"{q}: positional .shift() without freq=: values shifted past the end of the frame are lost",
+                        rel, n.lineno, q))
+                elif len(res.samples) < 4:
+                    res.samples.append({"file": rel, "function": q, "site": norm(n)[:80], "verdict": "index shift"})
+    res.floor = 6
+    return res
+
+
+@rule("R-RAW2")
+def r_raw2(E):
+    pm = E.pm
+    res = RuleResult("R-RAW2", "an operation combining raw arrays taken from two series (np.maximum / np.minimum) "
+                               "requires both operands aligned on one index and expressed in one unit")
+    for mod, (rel, tree, src) in sorted(pm.modules.items()):
+        for call in ast.walk(tree):
+            if not (isinstance(call, ast.Call) and isinstance(call.func, ast.Attribute)
+                    and call.func.attr in ("maximum", "minimum") and isinstance(call.func.value, ast.Name)
+                    and call.func.value.id == "np" and len(call.args) == 2):
+                continue
+            fn = call
+            while fn is not None and not isinstance(fn, ast.FunctionDef):
+                fn = getattr(fn, "_parent", None)
+            if fn is None:
+                continue
+            q = fn.name
+            res.instances += 1
+            # reaching definitions per top-level branch of the function (if/elif chain assigning both operands)
+            names = [a.id if isinstance(a, ast.Name) else None for a in call.args]
+            if None in names:
+                res.findings.append(Finding("R-RAW2", f"{rel}:{q} :: {norm(call)[:100]}",
+                                            f"{q}: operands of {norm(call.func)} are not simple locals", rel, call.lineno, q))
+                continue
+            defs = {nm: [] for nm in names}
+            for n in ast.walk(fn):
+                if isinstance(n, ast.Assign) and len(n.targets) == 1 and isinstance(n.targets[0], ast.Name) \
+                        and n.targets[0].id in defs and n.lineno < call.lineno:
+                    br = n
+                    while getattr(br, "_parent", None) is not fn and getattr(br, "_parent", None) is not None \
+                            and not isinstance(getattr(br, "_parent", None), ast.If):
+                        br = br._parent
+                    defs[n.targets[0].id].append((n, getattr(n, "_parent", None)))
+            # group definitions by enclosing branch (same parent `If` body list)
+            groups = {}
+            for nm, ds in defs.items():
+                for n, parent in ds:
+                    gid = id(parent) if isinstance(parent, ast.If) else 0
+                    body_id = None
+                    if isinstance(parent, ast.If):
+                        body_id = "body" if n in parent.body else "orelse"
+                    groups.setdefault((gid, body_id), {})[nm] = n
+            common = groups.pop((0, None), {})
+            checked = 0
+            for gk, g in (groups.items() or [((0, None), {})]):
+                d = dict(common)
+                d.update(g)
+                if set(d) != set(names):
+                    continue
+                checked += 1
+                texts = {nm: norm(d[nm].value) for nm in names}
+                aligned = False
+                reidx = []
+                for nm in names:
+                    cs = [x for x in ast.walk(d[nm].value) if isinstance(x, ast.Call) and isinstance(x.func, ast.Attribute)
+                          and x.func.attr in ("reindex", "align") and x.args]
+                    reidx.append(norm(cs[0].args[0]) if cs else None)
+                if reidx[0] is not None and reidx[0] == reidx[1]:
+                    aligned = True
+                const_side = [nm for nm in names if "np.full(len(" in texts[nm] or "np.zeros(len(" in texts[nm]]
+                if const_side:
+                    aligned = True     # a constant array sized on the other operand
+                unit_ok = bool(const_side) or any(".to(self.unit)" in texts[nm] for nm in names)
+                key = f"{rel}:{q} :: {norm(call)[:60]} with {texts[names[0]][:60]} | {texts[names[1]][:60]}"
+                if not aligned:
+                    res.findings.append(Finding(
+                        "R-RAW2", key + " unaligned",
+                        f"{q}: {norm(call.func)} combines the raw arrays of two series by position; nothing aligns "
+                        f"their indexes (series over different time windows are paired hour i with hour i, or "
+                        f"numpy raises on unequal lengths)", rel, call.lineno, q))
+                elif not unit_ok:
+                    res.findings.append(Finding(
+                        "R-RAW2", key + " unit",
+                        f"{q}: {norm(call.func)} compares bare magnitudes of two series without converting the second "
+                        f"to the unit of the first", rel, call.lineno, q))
+                elif len(res.samples) < 4:
+                    res.samples.append({"function": q, "operands": texts, "verdict": "aligned, one unit"})
+            if not checked:
+                res.undecided.append(f"{q}: could not pair the definitions of {names}")
+    res.floor = 2
+    return res
+
+
+@rule("R-SUMMARY")
+def r_summary(E):
+    """the frozen operator summaries of the interpreter agree with what the source says (DESIGN §4.6)"""
+    pm = E.pm
+    res = RuleResult("R-SUMMARY", "the interpreter's frozen summaries of the explainable methods (which operands become "
+                                  "parents, returns self or a new object, stores into self.value) agree with the source")
+    for name, s in sorted(E_METHODS.items()):
+        for cls in CLASSES + ("ExplainableObject",):
+            fn = next((f for f in pm.own_methods(cls) if f.name == name), None)
+            if fn is None:
+                continue
+            res.instances += 1
+            path = pm.path_of(cls)
+            where = f"{cls}.{name}"
+            if (cls, name) in OPPAR_EXCEPTIONS:
+                continue
+            stores = bool(_stores_into_value(fn))
+            rets = [n for n in ast.walk(fn) if isinstance(n, ast.Return) and n.value is not None]
+            ret_self = [n for n in rets if isinstance(n.value, ast.Name) and n.value.id == "self"]
+            if cls == "EmptyExplainableObject" and name in ("to",):
+                continue
+            want_inplace = s["inplace"] is not None and not (s["inplace"] == "value-EQ" and cls != "ExplainableQuantity")
+            if cls == "EmptyExplainableObject":
+                want_inplace = False
+            if stores != want_inplace:
+                res.findings.append(Finding(
+                    "R-SUMMARY", f"{where} in-place={stores}",
+                    f"{where} {'stores' if stores else 'does not store'} into self.value but the analyser's summary "
+                    f"says in-place={s['inplace']}: rules R-INPLACE / R-PROV would be misled", path, fn.lineno, where))
+            if s["returns_self"] and cls != "EmptyExplainableObject" and len(ret_self) != len(rets):
+                res.findings.append(Finding("R-SUMMARY", f"{where} returns-self",
+                                            f"{where} no longer returns self on every path", path, fn.lineno, where))
+    res.floor = 25
+    return res
